@@ -42,7 +42,39 @@ def freeCrypto : Crypto where
   sigOk leaf cr sr body := leaf == [0xCE] && cr == [0xC] && sr == [0xD] && body == [4]
   ckeDecode b := if b = [5] then some [0xCB] else none
   derive pub pk _ _ _ tr := if (pub = [0xCB] ∧ pk = [0x5B]) ∨ (pub = [0x5B] ∧ pk = [0xCB]) then some (freeKeys tr) else none
-  vd ms label tr := ms ++ [if label then 1 else 0] ++ tr
+  vd ms label tr := List.replicate ms.length 1 ++ 0 :: (ms ++ (if label then 1 else 0) :: tr)
+
+theorem unary_prefix_inj : ∀ (n n' : Nat) (a a' : Bytes),
+    List.replicate n (1 : UInt8) ++ 0 :: a = List.replicate n' 1 ++ 0 :: a' → n = n' ∧ a = a'
+  | 0, 0, a, a', h => by simpa using h
+  | 0, n' + 1, a, a', h => by simp [List.replicate_succ] at h
+  | n + 1, 0, a, a', h => by simp [List.replicate_succ] at h
+  | n + 1, n' + 1, a, a', h => by
+    simp only [List.replicate_succ, List.cons_append, List.cons.injEq, true_and] at h
+    have := unary_prefix_inj n n' a a' h
+    exact ⟨by omega, this.2⟩
+
+/-- the free verify_data (unary length of the master secret, the master secret, the label, the
+transcript) is injective: `VdInjective` is satisfiable -/
+theorem freeCrypto_vd_injective (m : Bytes) (l : Bool) (t m' : Bytes) (l' : Bool) (t' : Bytes)
+    (h : freeCrypto.vd m l t = freeCrypto.vd m' l' t') : m = m' ∧ l = l' ∧ t = t' := by
+  simp only [freeCrypto] at h
+  obtain ⟨hn, h2⟩ := unary_prefix_inj _ _ _ _ h
+  obtain ⟨h3, h4⟩ := List.append_inj h2 hn
+  simp only [List.cons.injEq] at h4
+  refine ⟨h3, ?_, h4.2⟩
+  cases l <;> cases l' <;> simp_all
+
+theorem freeCrypto_ms_determines_keys (p1 q1 a1 b1 : Bytes) (e1 : Bool) (t1 p2 q2 a2 b2 : Bytes) (e2 : Bool) (t2 : Bytes) (k1 k2 : Keys)
+    (h1 : freeCrypto.derive p1 q1 a1 b1 e1 t1 = some k1) (h2 : freeCrypto.derive p2 q2 a2 b2 e2 t2 = some k2)
+    (hms : k1.ms = k2.ms) : k1 = k2 := by
+  simp only [freeCrypto] at h1 h2
+  split at h1 <;> split at h2
+  · simp only [freeKeys, Option.some.injEq] at h1 h2
+    subst h1; subst h2
+    simp only [List.cons.injEq, true_and] at hms
+    rw [hms]
+  all_goals simp_all
 
 /-- the free world: client with the correct expected fingerprint, server without one -/
 def W0 : World :=
@@ -124,6 +156,17 @@ theorem reach0_no_failure : (reach0.all fun σ =>
 
 theorem reach0_length : reach0.length = 9 := by decide +kernel
 
+/-- in every state of `reach0` each verify_data value the client accepted is one the server emitted, and
+vice versa (the network hypothesis of `agree_or_not_both_connected` holds in the closed system) -/
+theorem reach0_accepted_was_sent : (reach0.all fun σ =>
+    (σ.c.evs.all fun ev => match ev with
+      | .finished _ _ body => σ.s.evs.any fun ev' => match ev' with | .sentFinished _ _ b => b == body | _ => false
+      | _ => true) &&
+    (σ.s.evs.all fun ev => match ev with
+      | .finished _ _ body => σ.c.evs.any fun ev' => match ev' with | .sentFinished _ _ b => b == body | _ => false
+      | _ => true)) = true := by
+  decide +kernel
+
 theorem reach1_init : Sys.init W1 ∈ reach1 := by decide +kernel
 theorem reach1_closed : closedB W1 reach1 = true := by decide +kernel
 theorem reach1_good : (reach1.all fun σ => bothConnected (fairRound W1 (fairRound W1 σ))) = true := by decide +kernel
@@ -131,5 +174,113 @@ theorem reach1_agree : (reach1.all fun σ =>
     !(σ.c.conn == .connected && σ.s.conn == .connected) ||
       (decide (σ.c.connKeys = σ.s.connKeys) && decide (σ.c.connSrtp = σ.s.connSrtp) && σ.c.connKeys.isSome)) = true := by
   decide +kernel
+
+/-! ### the timed closed system (handshake deadline) -/
+
+theorem deadlineTicks_eq : deadlineTicks = 30 := by decide
+
+/-- while the deadline of neither endpoint is enabled a timed schedule is its untimed projection -/
+theorem TSys.run_before_deadline (W : World) (D : Nat) : ∀ (acts : List TAct) (τ : TSys),
+    τ.kc + ticksC acts + 1 < D → τ.ks + ticksS acts + 1 < D →
+    (τ.run W D acts).σ = τ.σ.run W (untimed acts) ∧ (τ.run W D acts).kc = τ.kc + ticksC acts ∧ (τ.run W D acts).ks = τ.ks + ticksS acts := by
+  intro acts
+  induction acts with
+  | nil => intro τ _ _; simp [TSys.run, Sys.run, untimed, ticksC, ticksS]
+  | cons a as ih =>
+    intro τ hc hs
+    have key : ∀ τ' : TSys, τ' = τ.step W D a →
+        τ'.σ = (match a with | .net a => τ.σ.step W a | _ => τ.σ) ∧
+        τ'.kc = τ.kc + (if a = .net .tickC then 1 else 0) ∧ τ'.ks = τ.ks + (if a = .net .tickS then 1 else 0) := by
+      intro τ' h
+      subst h
+      cases a with
+      | net a => cases a <;> simp [TSys.step]
+      | deadlineC =>
+        have : ¬ D ≤ τ.kc + 1 := by omega
+        simp [TSys.step, this]
+      | deadlineS =>
+        have : ¬ D ≤ τ.ks + 1 := by omega
+        simp [TSys.step, this]
+    obtain ⟨k1, k2, k3⟩ := key _ rfl
+    have tc : ticksC (a :: as) = (if a = .net .tickC then 1 else 0) + ticksC as := by
+      simp only [ticksC, List.filter_cons]; split <;> simp_all <;> omega
+    have ts : ticksS (a :: as) = (if a = .net .tickS then 1 else 0) + ticksS as := by
+      simp only [ticksS, List.filter_cons]; split <;> simp_all <;> omega
+    have := ih (τ.step W D a) (by rw [k2]; omega) (by rw [k3]; omega)
+    simp only [TSys.run, List.foldl_cons] at this ⊢
+    obtain ⟨r1, r2, r3⟩ := this
+    refine ⟨?_, by rw [r2, k2, tc]; omega, by rw [r3, k3, ts]; omega⟩
+    rw [r1, k1]
+    cases a <;> simp [untimed, Sys.run]
+
+/-- once both endpoints are Connected no network or timer action changes that -/
+theorem reach0_connected_stable : (reach0.all fun σ =>
+    !bothConnected σ || (allActs σ).all fun a => bothConnected (σ.step W0 a)) = true := by decide +kernel
+
+theorem onDeadline_connected (e : Ep) (h : e.conn = .connected) : onDeadline e = e := by
+  simp [onDeadline, h]
+
+theorem connected_step {σ : Sys} (hσ : σ ∈ reach0) (hb : bothConnected σ = true) (a : Act) :
+    bothConnected (σ.step W0 a) = true := by
+  have h := reach0_connected_stable
+  simp only [List.all_eq_true, Bool.or_eq_true, Bool.not_eq_true'] at h
+  have h' := h σ hσ
+  rcases h' with h' | h'
+  · rw [hb] at h'; cases h'
+  · cases a with
+    | toS i =>
+      by_cases hi : i < σ.sentC.length
+      · exact h' _ (by simp [allActs, hi])
+      · rw [step_noop_toS W0 σ i (by omega)]; exact hb
+    | toC i =>
+      by_cases hi : i < σ.sentS.length
+      · exact h' _ (by simp [allActs, hi])
+      · rw [step_noop_toC W0 σ i (by omega)]; exact hb
+    | tickC => exact h' _ (by simp [allActs])
+    | tickS => exact h' _ (by simp [allActs])
+
+/-- … and neither does a deadline, whenever it fires -/
+theorem connected_tstep (D : Nat) {τ : TSys} (hσ : τ.σ ∈ reach0) (hb : bothConnected τ.σ = true) (a : TAct) :
+    (τ.step W0 D a).σ ∈ reach0 ∧ bothConnected (τ.step W0 D a).σ = true := by
+  have hc : τ.σ.c.conn = .connected := by simp [bothConnected] at hb; exact hb.1
+  have hs : τ.σ.s.conn = .connected := by simp [bothConnected] at hb; exact hb.2
+  cases a with
+  | net a =>
+    have : (τ.step W0 D (.net a)).σ = τ.σ.step W0 a := by cases a <;> rfl
+    rw [this]
+    exact ⟨closed_step reach0_closed hσ a, connected_step hσ hb a⟩
+  | deadlineC =>
+    have : (τ.step W0 D .deadlineC).σ = τ.σ := by
+      simp only [TSys.step]; split
+      · simp [Sys.deadlineC, onDeadline_connected _ hc]
+      · rfl
+    rw [this]; exact ⟨hσ, hb⟩
+  | deadlineS =>
+    have : (τ.step W0 D .deadlineS).σ = τ.σ := by
+      simp only [TSys.step]; split
+      · simp [Sys.deadlineS, onDeadline_connected _ hs]
+      · rfl
+    rw [this]; exact ⟨hσ, hb⟩
+
+theorem connected_trun (D : Nat) : ∀ (acts : List TAct) (τ : TSys), τ.σ ∈ reach0 → bothConnected τ.σ = true →
+    bothConnected (τ.run W0 D acts).σ = true := by
+  intro acts
+  induction acts with
+  | nil => intro τ _ hb; exact hb
+  | cons a as ih =>
+    intro τ hσ hb
+    have := connected_tstep D hσ hb a
+    exact ih _ this.1 this.2
+
+theorem foldl_step_mem {W : World} {R : List Sys} (hc : closedB W R = true) (f : Nat → Act) :
+    ∀ (l : List Nat) (σ : Sys), σ ∈ R → l.foldl (fun x i => x.step W (f i)) σ ∈ R := by
+  intro l
+  induction l with
+  | nil => intro σ h; exact h
+  | cons a as ih => intro σ h; exact ih _ (closed_step hc h _)
+
+theorem fairRound_mem {W : World} {R : List Sys} (hc : closedB W R = true) {σ : Sys} (h : σ ∈ R) : fairRound W σ ∈ R := by
+  unfold fairRound
+  exact foldl_step_mem hc Act.toC _ _ (foldl_step_mem hc Act.toS _ _ (closed_step hc (closed_step hc h _) _))
 
 end RtcModel.DtlsFlights
